@@ -462,6 +462,8 @@ _build0 = build
 
 def build(tier):  # noqa: F811
     O = _build0(tier)
+    from . import miner_cron
+    O += miner_cron.build_for('C13', tier)
     for o in O:
         for k, f in _SCN.items():
             if o.name.startswith(k):
